@@ -31,7 +31,16 @@ static int cmd_lr(int, char**) {
         if (c == "C") return C;
         return Grammar::Symbol::Terminal(c == "a" ? 1 : 2);
       };
+      // "inc": the grammar is built in two phases with queries in between (FIRST sets and a closure on the grammar so far);
+      // the grammar object afterwards is the same grammar, so tables and behaviour must be the same
+      bool incremental = in.value("incremental", false) && mode == 0;
+      size_t nrule = 0, half = in["rules"].size() / 2;
       for (auto& r : in["rules"]) {
+        if (incremental && nrule++ == half && half > 0) {
+          G.calculateFirstSets();
+          if (G.right_sides.contains(S) && !G.right_sides[S].empty())   // an item needs an existing alternative of S
+            hull(std::set<LRElement>{{S, 0, 0, Grammar::Symbol::Terminal(0)}}, G);
+        }
         std::vector<Grammar::Symbol> rhs;
         for (auto& x : r["r"]) rhs.push_back(sym(x.get<std::string>()));
         std::string tag = rule_name(r);
